@@ -394,3 +394,47 @@ Proof.
   - destruct Hin as [<-|[]]. vm_compute in Hp. discriminate.
   - discriminate.
 Qed.
+
+(* ---- the writer of the model follows the transaction bracket the translator gen_tx_order.py reads off shard.go ---- *)
+From Semadb Require TxOrder.
+
+(* the events of one writer step, by the phases before and after it *)
+Definition step_events (before after : wphase) : list TxOrder.tx_event :=
+  match before, after with
+  | WIdle, WInTx _ _ => [TxOrder.NewCacheTx; TxOrder.StorageBegin true; TxOrder.Callback]
+  | WInTx _ _, WCommitted _ _ => [TxOrder.StorageEnd]
+  | WCommitted _ _, WIdle => [TxOrder.CacheCommit]
+  | _, _ => []
+  end.
+
+Lemma writer_follows_bracket cfg st st1 st2 st3 :
+  st_wph st = WIdle ->
+  step_writer cfg st = Some st1 -> step_writer cfg st1 = Some st2 -> step_writer cfg st2 = Some st3 ->
+  step_events (st_wph st) (st_wph st1) ++ step_events (st_wph st1) (st_wph st2) ++ step_events (st_wph st2) (st_wph st3)
+    = TxOrder.tx_bracket true /\
+  (exists cid nx, st_wph st1 = WInTx cid nx /\ committed st1 = committed st /\ wheld st1 cid = true /\
+                  (exists ok, st_wph st2 = WCommitted cid ok /\ wheld st2 cid = true /\
+                              committed st2 = committed st ++ [st_cur st2] /\ st_heap st2 = st_heap st1)) /\
+  st_wph st3 = WIdle /\ committed st3 = committed st2.
+Proof.
+  intros Hidle H1 H2 H3.
+  unfold step_writer in H1. rewrite Hidle in H1.
+  destruct (st_todo st) as [|b rest]; [discriminate|].
+  assert (Hst1 : exists cid nx, st_wph st1 = WInTx cid nx /\ st_hist st1 = st_hist st /\ st_cur st1 = st_cur st).
+  { destruct (st_mgr st) as [cid|].
+    - destruct (rlocked st cid); [discriminate|].
+      destruct (nth_error (st_heap st) cid); [|discriminate].
+      inversion H1; subst st1; cbn. eauto.
+    - inversion H1; subst st1; cbn. eauto. }
+  destruct Hst1 as (cid & nx & Hw1 & Hh1 & Hc1).
+  unfold step_writer in H2. rewrite Hw1 in H2. inversion H2; subst st2; clear H2.
+  unfold step_writer in H3. cbn [st_wph] in H3. inversion H3; subst st3; clear H3.
+  rewrite Hidle, Hw1. cbn [st_wph step_events app].
+  split; [reflexivity|]. split.
+  - exists cid, nx. split; [reflexivity|]. split; [unfold committed; now rewrite Hh1, Hc1|].
+    split; [unfold wheld; rewrite Hw1; apply Nat.eqb_refl|].
+    eexists. split; [reflexivity|]. split; [unfold wheld; cbn; apply Nat.eqb_refl|].
+    split; [unfold committed; cbn; now rewrite Hh1, Hc1|reflexivity].
+  - split; reflexivity.
+Qed.
+
